@@ -97,7 +97,7 @@ package engine
 // goes to partition q mod N; serial replay rebuilds acknowledgement order from exactly this placement.
 //@ func (*WAL).writeBinary
 //@   requires l != nil
-//@   ghost q int = 0
+//@   ghost q uint64 = 0
 //@   ghost took bool = false
 //@   call AddUint64 on l.writeReq
 //@     requires !took && arg1 == 1
